@@ -9,6 +9,10 @@ Virtual time: every SPI transfer and every clock read advances a counter; time.s
 from . import common
 
 
+class Watchdog(Exception):
+    """an API call polled the radio longer than any bounded wait could (the model's OutOfFuel)"""
+
+
 class World:
     def __init__(self, model, plus="T", fates="-"):
         self.m = model
@@ -18,12 +22,15 @@ class World:
         self.hooks = []  # callables run after every SPI transfer / sleep (multi-node scheduling)
         self.in_hook = False
         self.transfers = 0
+        self.watchdog = None
         r = self.m.ask("wnew %s %s" % (plus, fates))
         assert r == "ok", r
 
     # --- primitive access
     def spi(self, i, mosi):
         self.transfers += 1
+        if self.watchdog is not None and self.transfers > self.watchdog:
+            raise Watchdog("more than %d SPI transfers in one call" % self.watchdog)
         self.now_ns += self.spi_cost_ns
         r = self.m.ask("wspi %d %s" % (i, common.hx(mosi)))
         if not r.startswith("x"):
